@@ -256,6 +256,7 @@ def plan(tier, seed):
         specs.append({"kind": "blowup", "examples": n, "max_abstract": m, "seed": seed * 1000 + idx})
     for k in range(4 if tier == "quick" else 16):
         specs.append({"kind": "large", "examples": 5 if tier == "quick" else 50, "seed": seed * 1000 + 700 + k})
+    specs.append({"kind": "ladders", "ks": list(range(2, 9 if tier == "quick" else 11))})
     specs.append({"kind": "cli", "examples": 250 if tier == "quick" else 3000, "seed": seed * 1000 + 900})
     return specs
 
@@ -286,6 +287,16 @@ def run_shard(spec) -> ShardResult:
                 res.note_case(tj(case), nt, labs + [f"chord-diagram-k={spec['k']}-{'spaced' if spec['spaced'] else 'dense'}"], sample_cap=1)
                 check_case(PROP_ID, oracle, case, res, to_json=tj)
         res.exhaustive = True
+    elif spec["kind"] == "ladders":
+        # k mutually crossing stems of 1-4 pairs: the optimal notation needs k bracket types, letters from the fifth on
+        for k in spec["ks"]:
+            for stem_len in (1, 2, 3, 4):
+                for gap in (0, 1):
+                    case = ssref.ladder(k, stem_len, gap)
+                    nt, labs = classify(case)
+                    res.note_case(tj(case), nt, labs + [f"ladder-k={k}"], sample_cap=1)
+                    check_case(PROP_ID, oracle, case, res, to_json=tj)
+        res.exhaustive = False
     elif spec["kind"] == "large":
         run_hypothesis(PROP_ID, ssref.st_large_structures(max_pairs=90), oracle, seed=spec["seed"], max_examples=spec["examples"],
                        result=res, to_json=tj, classify=lambda c: (classify(c)[0], classify(c)[1] + ["large"]), sample_cap=0, shrink=False)
